@@ -376,6 +376,10 @@ qb_log_blackbox_print_from_file(const char *bb_filename)
 		/* message content */
 		len = qb_vsnprintf_deserialize(message, QB_LOG_MAX_LEN, ptr);
 		assert(len > 0);
+		if (len >= QB_LOG_MAX_LEN) {
+			/* the text was cut to the buffer */
+			len = QB_LOG_MAX_LEN - 1;
+		}
 		message[len] = '\0';
 		len--;
 		while (len > 0 && (message[len] == '\n' || message[len] == '\0')) {
